@@ -178,8 +178,8 @@ def _fix_atomic_specifiers_once(
         # Preserve the declarator coord for _Atomic(T) so TypeDecl doesn't lose
         # its location when we replace the wrapper Typename.
         new_type.coord = parent.coord
-    for qual in (parent.quals or []) + ["_Atomic"]:
-        if qual not in new_type.quals:
-            new_type.quals.append(qual)
+    new_type.quals.extend(parent.quals or [])
+    if "_Atomic" not in new_type.quals:
+        new_type.quals.append("_Atomic")
     cast(Any, grandparent).type = new_type
     return decl, True
